@@ -85,6 +85,9 @@ def evaluate(mod, cases, res: Result, with_model=True):
             impl_outs.append(mod.run_impl(c))
         except Exception:
             impl_outs.append({"harness_crash": traceback.format_exc()[-1500:]})
+    for c, io in zip(cases, impl_outs):
+        if isinstance(io, dict) and "harness_crash" in io:
+            raise RuntimeError("harness crashed on a case:\n" + io["harness_crash"] + json.dumps(c, default=str)[:2000])
     model_cases = [mod.model_case(c, io) for c, io in zip(cases, impl_outs)]
     model_outs = [None] * len(cases)
     if with_model:
